@@ -1,4 +1,5 @@
 import ActixModel.Proofs.Multipart
+import ActixModel.Proofs.MultipartScan
 /-
 C15 — multipart parsing is exact, segmentation-independent, terminating and buffer-bounded.
 Model: `ActixModel/Model/Multipart.lean`; helper lemmas: `ActixModel/Proofs/Multipart.lean`.
@@ -58,6 +59,186 @@ theorem witness_F6_truncated_body_hangs :
 theorem C15_F6_fixed :
     events (run Cfg.fixed 8 (initSys [66] false 64 [] [.chunk (wBody [])]))
       = [.field ⟨[], none⟩, .data [100], .fail .incomplete] := by
+  decide
+
+
+/-! ## exactness of the delimiter scanner (`InnerField::read_stream`)
+
+`delim b = CR LF - - b`; `splitDelim b bs` is the grammar-level split of the bytes after a part's
+header block: `some (content, rest)` with `rest` starting at the first delimiter, `none` if there
+is none. -/
+
+/-- **C15_scan_content.** Whatever `read_stream` hands out as content lies in front of the first
+delimiter of the input — for every buffer, every end-of-stream flag and *every continuation* `ext`
+of the buffer (i.e. wherever the body was cut). No byte of a delimiter is ever delivered as content,
+and at least one byte is delivered. -/
+theorem C15_scan_content (b buf ext : Bytes) (eof : Bool) (n : Nat)
+    (h : readStream Cfg.fixed buf eof b = .data n) :
+    0 < n ∧ n ≤ buf.length ∧
+      splitDelim b (buf ++ ext) =
+        (splitDelim b (buf.drop n ++ ext)).map (fun cr => (buf.take n ++ cr.1, cr.2)) := by
+  obtain ⟨h0, h1, h2⟩ := readStream_data (cfg := Cfg.fixed) rfl rfl h ext
+  refine ⟨h0, h1, ?_⟩
+  have := splitDelim_skip n (buf ++ ext) (by simp; omega) h2
+  rwa [List.drop_append_of_le_length h1, List.take_append_of_le_length h1] at this
+
+/-- the hypothesis of `C15_scan_content` is met by a non-trivial buffer: content ending in CR LF
+with the delimiter still incomplete -/
+example : readStream Cfg.fixed [100, 13, 10, 13, 10, 45, 45] false [66] = .data 3 := by decide
+
+/-- **C15_scan_end.** `read_stream` ends a field only where a complete delimiter starts. -/
+theorem C15_scan_end (b buf : Bytes) (eof : Bool) (h : readStream Cfg.fixed buf eof b = .fin) :
+    splitDelim b buf = some ([], buf) :=
+  splitDelim_here (readStream_fin (cfg := Cfg.fixed) rfl h)
+
+example : readStream Cfg.fixed [13, 10, 45, 45, 66, 45, 45] false [66] = .fin := by decide
+
+/-- **C15_scan_error.** `read_stream` fails only at the end of the stream, with `Incomplete`, and only
+when no delimiter occurs in what is left (a truncated body). -/
+theorem C15_scan_error (b buf : Bytes) (eof : Bool) (e : Err)
+    (h : readStream Cfg.fixed buf eof b = .fail e) :
+    eof = true ∧ e = .incomplete ∧ splitDelim b buf = none :=
+  readStream_fail (cfg := Cfg.fixed) rfl h
+
+example : readStream Cfg.fixed [13, 10, 45] true [66] = .fail .incomplete := by decide
+
+/-- **C15_scan_decides_at_eof.** Once the stream has ended `read_stream` never answers `Pending`. -/
+theorem C15_scan_decides_at_eof (b buf : Bytes) : readStream Cfg.fixed buf true b ≠ .pending :=
+  readStream_eof Cfg.fixed rfl buf b
+
+/-- **C15_field_exact** (content of one part, every schedule). Start with an empty buffer at the
+first content byte of a part; let *any* sequence of "append more bytes" / "poll the field" happen
+(`ops`: whole chunks, split chunks, empty chunks, polls in between — everything `PayloadBuffer` can
+do short of overflowing), then the end of the stream. With `bs` the bytes fed in total:
+* if `bs` contains a delimiter, the delivered content is exactly the bytes in front of the first
+  one, the field ends there, and the buffer holds the rest starting at the delimiter;
+* otherwise the field fails with `Incomplete` (it never hangs, never ends normally), and what was
+  delivered is a prefix of `bs`. -/
+theorem C15_field_exact (b : Bytes) (ops : List FOp) :
+    let bs := feedsOf ops
+    let s := fsClose Cfg.fixed b (bs.length + 1) (ops.foldl (fsOp Cfg.fixed b) ⟨[], [], none⟩)
+    match splitDelim b bs with
+    | some (c, r) => s.out = c ∧ s.buf = r ∧ s.done = some none
+    | none => s.done = some (some .incomplete) ∧ s.out <+: bs :=
+  field_result (cfg := Cfg.fixed) rfl rfl rfl b ops
+
+/-- **C15_field_segmentation.** Two schedules that feed the same bytes give the same outcome, the
+same content and leave the same buffer (content equality is claimed when the field ends normally;
+after `Incomplete` both have delivered a prefix of the input). -/
+theorem C15_field_segmentation (b : Bytes) (ops₁ ops₂ : List FOp) (h : feedsOf ops₁ = feedsOf ops₂) :
+    let run := fun ops => fsClose Cfg.fixed b ((feedsOf ops).length + 1)
+      (ops.foldl (fsOp Cfg.fixed b) ⟨[], [], none⟩)
+    (run ops₁).done = (run ops₂).done ∧
+      ((run ops₁).done = some none → (run ops₁).out = (run ops₂).out ∧ (run ops₁).buf = (run ops₂).buf) := by
+  intro run
+  have h1 := C15_field_exact b ops₁
+  have h2 := C15_field_exact b ops₂
+  simp only [] at h1 h2
+  rw [← h] at h2
+  cases hs : splitDelim b (feedsOf ops₁) with
+  | none =>
+    rw [hs] at h1 h2
+    simp only [] at h1 h2
+    refine ⟨?_, ?_⟩
+    · show (fsClose _ _ _ _).done = (fsClose _ _ _ _).done
+      rw [h1.1, ← h, h2.1]
+    · intro hd
+      have : (fsClose Cfg.fixed b ((feedsOf ops₁).length + 1)
+        (ops₁.foldl (fsOp Cfg.fixed b) ⟨[], [], none⟩)).done = some none := hd
+      rw [h1.1] at this
+      cases this
+  | some cr =>
+    rw [hs] at h1 h2
+    simp only [] at h1 h2
+    refine ⟨?_, ?_⟩
+    · show (fsClose _ _ _ _).done = (fsClose _ _ _ _).done
+      rw [h1.2.2, ← h, h2.2.2]
+    · intro _
+      constructor
+      · show (fsClose _ _ _ _).out = (fsClose _ _ _ _).out
+        rw [h1.1, ← h, h2.1]
+      · show (fsClose _ _ _ _).buf = (fsClose _ _ _ _).buf
+        rw [h1.2.1, ← h, h2.2.1]
+
+/-- two different schedules for the same bytes `d CR LF - - B`: all at once, or cut after `CR LF - -`
+with polls in between (the F5 situation) -/
+example : feedsOf [.feed [100, 13, 10, 45, 45, 66], .poll] =
+    feedsOf [.feed [100, 13, 10, 45, 45], .poll, .poll, .feed [66], .poll] := by decide
+
+/-- **C15_line_stable.** A line / header block found by `read_until` (boundary lines, the blank
+line after a header block, the line break in front of a delimiter) is found identically when more
+bytes have arrived and whatever the end-of-stream flag says: these decisions do not depend on
+where the body was cut. -/
+theorem C15_line_stable (needle buf c r ext : Bytes) (eof eof' : Bool)
+    (h : readUntil needle buf eof = .ok (some (c, r))) :
+    readUntil needle (buf ++ ext) eof' = .ok (some (c, r ++ ext)) :=
+  readUntil_stable h ext eof'
+
+example : readUntil [10] [45, 45, 66, 13, 10, 120] false = .ok (some ([45, 45, 66, 13, 10], [120])) := rfl
+
+/-! ## the defects found, as theorems about the pre-repair variants of the same model -/
+
+/-- F5 (pinned commit, `len > 4`): with exactly `CR LF - -` buffered the scanner hands the four
+delimiter bytes out as content -/
+theorem witness_F5_scanner_emits_delimiter :
+    readStream { Cfg.fixed with f5 := false } [13, 10, 45, 45] false [66] = .data 4 := by decide
+
+/-- repaired (`len >= 4`): it waits for the rest of the delimiter -/
+theorem C15_F5_fixed : readStream Cfg.fixed [13, 10, 45, 45] false [66] = .pending := by decide
+
+/-- F5 end to end: `--B CRLF CRLF d CRLF --`, three Pendings, `B--CRLF` ⇒ the delimiter is delivered as
+content and the task hangs (pinned commit); the full statement `C15_field_exact` is false of that variant -/
+theorem witness_F5_delimiter_as_content_then_hang :
+    events (run { Cfg.fixed with f5 := false, f6 := false } 12 (initSys [66] false 64 []
+      [.chunk (wBody [45, 45]), .pending, .pending, .pending, .chunk [66, 45, 45, 13, 10]]))
+      = [.field ⟨[], none⟩, .data [100], .data [13, 10, 45, 45], .data [66, 45, 45], .hang] := by
+  decide
+
+theorem C15_F5_fixed_run :
+    events (run Cfg.fixed 12 (initSys [66] false 64 []
+      [.chunk (wBody [45, 45]), .pending, .pending, .pending, .chunk [66, 45, 45, 13, 10]]))
+      = [.field ⟨[], none⟩, .data [100], .fieldEnd, .eof] := by
+  decide
+
+/-- F15 (pinned commit): after three `Pending`s (so that no earlier wake-up is on record), sixteen empty chunks use up the budget of one
+`poll_stream`; nothing was appended, so no wake-up is scheduled ⇒ HANG although data follows -/
+theorem witness_F15_empty_chunks_lose_wakeup :
+    events (run { Cfg.fixed with f15 := false } 12 (initSys [66] false 64 []
+      ([.chunk (wBody []), .pending, .pending, .pending] ++ List.replicate 16 (.chunk []) ++ [.chunk [45, 45, 66, 45, 45, 13, 10]])))
+      = [.field ⟨[], none⟩, .data [100], .hang] := by
+  decide
+
+theorem C15_F15_fixed :
+    events (run Cfg.fixed 12 (initSys [66] false 64 []
+      ([.chunk (wBody []), .pending, .pending, .pending] ++ List.replicate 16 (.chunk []) ++ [.chunk [45, 45, 66, 45, 45, 13, 10]])))
+      = [.field ⟨[], none⟩, .data [100], .fieldEnd, .eof] := by
+  decide
+
+/-- F16 (pinned commit): part 1 has no header fields; its content `d` is lost and the content `e`
+of part 2 (`X:1` header) is delivered as the content of a header-less part -/
+theorem witness_F16_headerless_part_swallows_content :
+    events (run { Cfg.fixed with f16 := false } 12 (initSys [66] false 64 []
+      [.chunk (wBody ([45, 45, 66, 13, 10, 88, 58, 49, 13, 10, 13, 10, 101, 13, 10, 45, 45, 66, 45, 45, 13, 10]))]))
+      = [.field ⟨[], none⟩, .data [101], .fieldEnd, .eof] := by
+  decide
+
+theorem C15_F16_fixed :
+    events (run Cfg.fixed 12 (initSys [66] false 64 []
+      [.chunk (wBody ([45, 45, 66, 13, 10, 88, 58, 49, 13, 10, 13, 10, 101, 13, 10, 45, 45, 66, 45, 45, 13, 10]))]))
+      = [.field ⟨[], none⟩, .data [100], .fieldEnd, .field ⟨[([120], [49])], none⟩, .data [101], .fieldEnd, .eof] := by
+  decide
+
+/-- F17 (pinned commit): content `d CR - - B x` is cut at the bare CR and parsing goes on successfully -/
+theorem witness_F17_bare_cr_truncates_content :
+    events (run { Cfg.fixed with f17 := false } 12 (initSys [66] false 64 []
+      [.chunk ([45, 45, 66, 13, 10, 13, 10, 100, 13, 45, 45, 66, 120, 13, 10, 45, 45, 66, 45, 45, 13, 10])]))
+      = [.field ⟨[], none⟩, .data [100], .fieldEnd, .eof] := by
+  decide
+
+theorem C15_F17_fixed :
+    events (run Cfg.fixed 12 (initSys [66] false 64 []
+      [.chunk ([45, 45, 66, 13, 10, 13, 10, 100, 13, 45, 45, 66, 120, 13, 10, 45, 45, 66, 45, 45, 13, 10])]))
+      = [.field ⟨[], none⟩, .data [100, 13, 45, 45, 66, 120], .fieldEnd, .eof] := by
   decide
 
 end ActixModel.Props.C15
